@@ -22,6 +22,7 @@ Fails(e) ==
   ELSE IF e.e # "RPC" THEN {}
   ELSE LET I == Ifaces[e.iface] IN
        Tag((IF e.iface = "calc" THEN e.hash_calc ELSE e.hash_small) = I.hash, "interface-hash")
+       \cup (IF Has(e, "sels") /\ IOEnv.PROP # "C10" THEN SelsFail(I, e) ELSE {})
        \cup UnionOver(Len(e.calls), LAMBDA i :
               LET c == e.calls[i] IN
               IF Has(c, "fault") /\ c.ftrig THEN (IF IOEnv.PROP = "C10" THEN FaultFails(c) ELSE {})
